@@ -8,6 +8,7 @@ package dbSync
 //vf:job C03 quick VF_C03_Parse k=2 cfg=0..9
 //vf:job C03 thorough VF_C03_Parse k=3 cfg=0..9
 //vf:job C06 quick VF_C03_Parse k=1 cfg=0..9
+//vf:job C06 quick VF_C03_Parse k=2 cfg=8..9
 //vf:job C06 thorough VF_C03_Parse k=2 cfg=0..9
 //vf:job C08 quick VF_C03_Parse k=2 cfg=0,3
 //vf:replayE C03 VF_C03_Parse
